@@ -37,7 +37,8 @@ ASSUMPTIONS = [
     'strings are printable ASCII without leading/trailing blanks, separators or quotes and do not look like numbers (text '
     'formats carry no type information: a column of digit-only uuids is read as integers); ra_str / dec_str may be empty '
     '(the class default), uuids are non-empty',
-    'integers fit in 32 bits (FITS J columns); finite floats, NaN, and -1 markers; +-inf is not generated',
+    'integers fit in 32 bits (FITS J columns); finite floats, NaN, and -1 markers; +-inf is not generated; attributes are python '
+    'scalars or numpy scalars (float32 / float64 / int64 / int32); a numpy.float32 must come back as its exact float64 promotion',
     'floats are compared for exact equality after the round trip (that is the property); FITS floats are compared with the '
     'binary32 rounding of the written value (numpy float32 cast: 1e300 -> inf, 1e-300 -> 0)',
     'NaN is stored as NULL by sqlite3 (library behaviour), compared as such',
@@ -48,6 +49,7 @@ SUFFIX = {2: '_comp', 1: '_isle', 0: '_simp'}
 DBTABLE = {2: 'components', 1: 'islands', 0: 'simples'}
 INT_ATTRS = {'island', 'source', 'flags', 'components', 'pixels', 'x_width', 'y_width'}
 STR_ATTRS = {'ra_str', 'dec_str', 'uuid'}
+F32_ATTRS = {'background', 'local_rms', 'residual_mean', 'residual_std', 'eta', 'peak_flux', 'peak_pixel'}
 TEXT_FORMATS = ['csv', 'tab', 'tex']
 VO_FORMATS = ['vot', 'xml', 'vo']
 ALL_FORMATS = TEXT_FORMATS + VO_FORMATS + ['fits']
@@ -67,11 +69,20 @@ def kind_class(k):
 # ------------------------------------------------------------------------------------------
 # catalogue descriptions (JSON-able) <-> real source objects
 def enc(v):
-    if isinstance(v, bool):
-        return ['b', v]
-    if isinstance(v, (int, np.integer)):
+    """JSON-able (tag, value); numpy scalar types keep their type: f32 / f64 / i64 / i32"""
+    if isinstance(v, (bool, np.bool_)):
+        return ['b', bool(v)]
+    if isinstance(v, np.float32):
+        return ['f32', float(v).hex()]
+    if isinstance(v, np.float64):
+        return ['f64', float(v).hex()]
+    if isinstance(v, np.int32):
+        return ['i32', int(v)]
+    if isinstance(v, np.integer):
+        return ['i64', int(v)]
+    if isinstance(v, int):
         return ['i', int(v)]
-    if isinstance(v, (float, np.floating)):
+    if isinstance(v, float):
         return ['f', float(v).hex()]
     if isinstance(v, str):
         return ['s', str(v)]
@@ -82,6 +93,14 @@ def dec(e):
     t, v = e
     if t == 'f':
         return float.fromhex(v)
+    if t == 'f32':
+        return np.float32(float.fromhex(v))
+    if t == 'f64':
+        return np.float64(float.fromhex(v))
+    if t == 'i64':
+        return np.int64(v)
+    if t == 'i32':
+        return np.int32(v)
     return v
 
 
@@ -175,13 +194,15 @@ def gen_source(rng, k, prof, first, idx):
 
 
 def gen_catalog(rng, n, prof=None, kinds=None):
-    prof = prof or rng.choice(['mixed', 'firstrow', 'extreme', 'nan', 'plain', 'minus1', 'intcol', 'emptystr', 'someempty'])
+    prof = prof or rng.choice(['mixed', 'firstrow', 'extreme', 'nan', 'plain', 'minus1', 'intcol', 'emptystr', 'someempty',
+                              'npfloat', 'npint'])
     kinds = kinds or rng.choice([[2], [2], [2, 1], [2, 1, 0], [1], [0], [0, 2, 1]])
     desc = []
     seen = set()
+    base = 'plain' if prof in ('npfloat', 'npint') else prof
     for i in range(n):
         k = rng.choice(kinds)
-        d = gen_source(rng, k, prof, first=(k not in seen), idx=i)
+        d = gen_source(rng, k, base, first=(k not in seen), idx=i)
         seen.add(k)
         desc.append(d)
     if prof == 'minus1':       # every error of every component is the marker, as int or as float
@@ -190,6 +211,36 @@ def gen_catalog(rng, n, prof=None, kinds=None):
             for nme in d['a']:
                 if nme.startswith('err_'):
                     d['a'][nme] = enc(-1 if as_int else -1.0)
+    if prof == 'npfloat':
+        # what source_finder produces: numpy.float32 for values read from float32 maps (background, local_rms, island
+        # eta / peak_flux) and numpy.float64 elsewhere; float32 in every row, only in the first, or only in later rows
+        mode = rng.choice(['all', 'all', 'first', 'later'])
+        firsts = set()
+        for d in desc:
+            isfirst = d['k'] not in firsts
+            firsts.add(d['k'])
+            use32 = mode == 'all' or (mode == 'first' and isfirst) or (mode == 'later' and not isfirst)
+            for nme, e in d['a'].items():
+                if e[0] != 'f':
+                    continue
+                v = float.fromhex(e[1])
+                if nme in F32_ATTRS and use32:
+                    with np.errstate(all='ignore'):
+                        w = np.float32(v)
+                    if not (np.isfinite(w) or np.isnan(w)):
+                        w = np.float32(0.1)
+                    d['a'][nme] = enc(w)
+                else:
+                    d['a'][nme] = enc(np.float64(v))
+    if prof == 'npint':
+        # what table_to_source_list produces (a catalogue that was loaded and is written again): numpy ints
+        ty = rng.choice([np.int64, np.int64, np.int32])
+        for d in desc:
+            for nme, e in d['a'].items():
+                if e[0] == 'i':
+                    d['a'][nme] = enc(ty(e[1]))
+                elif e[0] == 'f' and rng.random() < 0.5:
+                    d['a'][nme] = enc(np.float64(float.fromhex(e[1])))
     if prof == 'intcol':       # a float attribute holding python ints in every row
         for d in desc:
             for nme in ('a', 'peak_flux'):
@@ -214,6 +265,11 @@ def expected_float(orig, fmt):
 def cell_problem(orig, got, fmt, name, table_level=False):
     """None when `got` is what the property demands for `orig`; else (class, message).  table_level: `got` is a cell
     of the astropy table (not an attribute set by Aegean's loader): there NaN and '' may be masked (library)"""
+    was32 = isinstance(orig, np.float32)
+    if isinstance(orig, np.floating):
+        orig = float(orig)          # the float64 promotion (exact)
+    elif isinstance(orig, np.integer):
+        orig = int(orig)
     if is_masked(got):
         if table_level and ((isinstance(orig, float) and math.isnan(orig)) or orig == ''):
             return None
@@ -238,6 +294,9 @@ def cell_problem(orig, got, fmt, name, table_level=False):
             return ('nan', f'{name}: wrote NaN, read {got!r}')
         return None
     if g != e or math.isnan(g):
+        if was32 and fmt != 'fits' and float(np.float32(g)) == e:
+            return ('float32-repr', f'{name}: wrote numpy.float32({e!r}), read {g!r}: equal as float32 but not the float64 '
+                                    f'promotion of the written value')
         prec = 'binary32-rounded value' if fmt == 'fits' else 'value'
         return ('float', f'{name}: wrote {orig!r} ({float(orig).hex()}), expected the {prec} {e!r}, read {got!r}')
     return None
@@ -258,6 +317,10 @@ def known_classes():
             continue
         if 'prefix' in text:
             out['prefix-loader'] = text
+        if 'BLOB' in text:
+            out['db-npint-blob'] = text
+        if 'float32' in text and 'tex' in text:
+            out['float32-repr'] = text
     return out
 
 
@@ -378,6 +441,14 @@ def roundtrip_db(work, desc, meta=None, base='rtdb'):
             for i, (d, r) in enumerate(zip(mine, rows)):
                 for n, g in zip(names, r):
                     o = dec(d['a'][n])
+                    if isinstance(o, np.integer) and isinstance(g, bytes) and g == o.tobytes():
+                        problems.append(('db-npint-blob', f'{DBTABLE[k]} row {i} {n}: wrote {type(o).__name__}({int(o)}), sqlite '
+                                                          f'holds the BLOB {g!r}'))
+                        continue
+                    if isinstance(o, np.floating):
+                        o = float(o)
+                    elif isinstance(o, np.integer):
+                        o = int(o)
                     if isinstance(o, float) and math.isnan(o):
                         ok = g is None                      # sqlite3 stores NaN as NULL
                     elif isinstance(o, str):
@@ -940,7 +1011,7 @@ def plan(ctx):
     quick = ctx.tier == 'quick'
     out = []
     sizes = [1, 1, 2, 3, 5, 17, 60] if quick else [1, 1, 2, 2, 3, 5, 9, 17, 60, 150, 400]
-    profs = ['mixed', 'firstrow', 'extreme', 'nan', 'plain', 'minus1', 'intcol', 'emptystr', 'someempty']
+    profs = ['mixed', 'firstrow', 'extreme', 'nan', 'plain', 'minus1', 'intcol', 'emptystr', 'someempty', 'npfloat', 'npint']
     for rep in range(1 if quick else 4):
         for prof in profs:
             for n in sizes:
@@ -960,6 +1031,7 @@ def run_roundtrips(ctx, known, stop_after=None):
     hits = {}
     nfiles = 0
     nhard = 0
+    per_fmt = {}
     counts = {}
     for bucket, n, prof, fmts, prefix, meta in plan(ctx):
         _, desc = gen_catalog(rng, n, prof=prof)
@@ -983,7 +1055,8 @@ def run_roundtrips(ctx, known, stop_after=None):
                     hits[p[0]] = hits.get(p[0], 0) + 1
             if hard:
                 nhard += 1
-                if nhard > 6:          # enough concrete inputs: keep a failing run short
+                per_fmt[fmt] = per_fmt.get(fmt, 0) + 1
+                if per_fmt[fmt] > 2:   # enough concrete inputs for this format: keep a failing run short
                     if nhard <= 40:
                         ctx.mismatch(f'round trip through .{fmt}', {'format': fmt, 'prefix': pre, 'meta': bool(meta), 'rows': n,
                                                                    'profile': prof}, impl=[p[1] for p in hard[:2]])
@@ -998,7 +1071,7 @@ def run_roundtrips(ctx, known, stop_after=None):
                     roundtrip(ctx.work, small, fmt, prefix=pre, meta=meta, base='shr')
                 what = [p[1] for p in pr if p[0] not in known][:4]
                 ctx.mismatch(f'round trip through .{fmt}', {'format': fmt, 'prefix': pre, 'meta': meta, 'rows': len(small),
-                                                           'profile': prof}, impl=what,
+                                                           'profile': prof, 'catalog': small}, impl=what,
                              is_violation={'kind': 'roundtrip', 'fmt': fmt, 'prefix': pre, 'meta': meta, 'catalog': small,
                                            'what': what})
                 if stop_after is not None:
